@@ -470,6 +470,12 @@ macro_rules! concrete_accessors {
         let x = $x;
         let e: &Expect = $e;
         let mut bad: Vec<(&'static str, String)> = Vec::new();
+        // receivers through which method resolution would pick up an impl for a wrapper type
+        // (&T, &mut T, Box<T>, Rc<T>, Arc<T>) if the crate had one, and the type's own impl otherwise
+        let mut y = x;
+        let bx = Box::new(x);
+        let rc = std::rc::Rc::new(x);
+        let arc = std::sync::Arc::new(x);
         macro_rules! both {
             ($name:literal, $call:ident, $map:expr, $want:expr) => {{
                 let direct = $map(x.$call());
@@ -479,6 +485,22 @@ macro_rules! concrete_accessors {
                 }
                 if via_ref != $want {
                     bad.push(($name, format!("(&&{}).{}() = {:?}, expected {:?}", $tyname, $name, via_ref, $want)));
+                }
+                let via_mut = $map((&mut y).$call());
+                if via_mut != $want {
+                    bad.push(($name, format!("(&mut {}).{}() = {:?}, expected {:?}", $tyname, $name, via_mut, $want)));
+                }
+                let via_box = $map(bx.$call());
+                if via_box != $want {
+                    bad.push(($name, format!("Box<{}>.{}() = {:?}, expected {:?}", $tyname, $name, via_box, $want)));
+                }
+                let via_rc = $map(rc.$call());
+                if via_rc != $want {
+                    bad.push(($name, format!("Rc<{}>.{}() = {:?}, expected {:?}", $tyname, $name, via_rc, $want)));
+                }
+                let via_arc = $map(arc.$call());
+                if via_arc != $want {
+                    bad.push(($name, format!("Arc<{}>.{}() = {:?}, expected {:?}", $tyname, $name, via_arc, $want)));
                 }
             }};
         }
@@ -529,7 +551,7 @@ pub fn c02_triple(chk: &Check, s: u8, d1: u8, d2: u8) {
 }
 
 pub fn run_c02(chk: &Check) {
-    chk.rule("all 128x128x128 valid (status,d1,d2) triples x {Raw,Structured,Foreign3} through generic code, and Raw/Structured once more through method-call syntax on the concrete type (where an inherent method would shadow the trait method) and through a further reference level ((&&x).m(), which would pick up an impl for &T): every classification method and field accessor against an independently written MIDI-1.0 table; all 256 bytes for ShortMessageType; non-trivial = distinct (impl,triple) cases in which at least one field accessor must return Some (a data-carrying channel message) or the message is Channel Mode");
+    chk.rule("all 128x128x128 valid (status,d1,d2) triples x {Raw,Structured,Foreign3} through generic code, and Raw/Structured once more through method-call syntax on the concrete type (where an inherent method would shadow the trait method) and through further receiver types ((&&x).m(), (&mut x).m(), Box / Rc / Arc of x: method resolution would pick up an impl for &T, &mut T or a smart pointer if there were one): every classification method and field accessor against an independently written MIDI-1.0 table; all 256 bytes for ShortMessageType; non-trivial = distinct (impl,triple) cases in which at least one field accessor must return Some (a data-carrying channel message) or the message is Channel Mode");
     let nontrivial = AtomicU64::new(0);
     (0x80..=0xFFu8).into_par_iter().for_each(|s| {
         let mut nt = 0u64;
